@@ -101,6 +101,14 @@ def capture_twins(rep, repo, mod):
         d = next((i for i, (x, y) in enumerate(zip(a, b)) if x != y), min(len(a), len(b)))
         rep.violate('C06.capture', mod, g, bg[1 + d] if 1 + d < len(bg) else 'loop body', 'the entry loops of wave_capture_cpu and wave_capture_gpu differ',
                     witness={'cpu': a[d] if d < len(a) else None, 'gpu': b[d] if d < len(b) else None}, node=bg[1 + d] if 1 + d < len(bg) else g)
+    # both loops scan the whole waveform: cpu `for t in w` with w = c[c_loc:c_loc+c_len, vector]; gpu tidx in range(capacity)
+    gi = {cz(s) for s in body_no_doc(g)}
+    ci = {cz(s) for s in body_no_doc(f)}
+    ok = cz(lc.iter) == 'w' and 'w=c[c_loc:c_loc+c_len,vector]' in ci and cz(lg.iter) == 'range(tdim)' and 'tdim=c_caps[ppo_offset+y]' in gi \
+        and cz(bg[0]) == f't=c[line+{lg.target.id},vector]' and 'line=c_locs[ppo_offset+y]' in gi
+    rep.ob('C06.capture', 'both kernels scan all `capacity` entries of the output waveform', ok)
+    if not ok:
+        rep.violate('C06.capture', mod, g, lg.iter, 'the capture kernels must scan the same range: cpu `for t in c[c_loc:c_loc+c_len, vector]`, gpu `for tidx in range(c_caps[ppo_offset + y]): t = c[line + tidx, vector]`', node=lg)
     pc = [s for s in body_no_doc(f) if isinstance(s, ast.If) and cz(s.test) == 's_sqrt2>0' and s.orelse]
     pg = [s for s in body_no_doc(g) if isinstance(s, ast.If) and cz(s.test) == 's_sqrt2>0' and s.orelse]
     tol = {'seed=(seed<<4)+(vector<<20)+c_loc': 'seed=(seed<<4)+(vector<<20)+(y<<1)'}
@@ -366,6 +374,14 @@ def mock_api(rep, repo):
             rep.violate('C06.mockapi', mod, x, f'{root}.{".".join(chain)}', f'{mod.name} uses {root}.{".".join(chain)} but the pure-Python stand-in {"MockCuda" if root == "cuda" else "MockNumba"} does not provide it: '
                         f'the GPU-kernel code path raises AttributeError without CUDA', node=x)
     rep.floor('cuda/numba attributes used', n, 6)
+
+
+def depends(rep, repo):
+    """Rules of the mechanisms this property's results rest on (schedule validity and memory map of SimOps): a change
+    that breaks them breaks this property too, so they are part of this check (rule ids keep their C07./C08. prefix)."""
+    from checks import c07, c08
+    c07.schedule_rules(rep, repo)
+    c08.map_rules(rep, repo)
 
 
 def thorough(rep, repo):
